@@ -13,6 +13,7 @@ mod common;
 mod common_assets;
 mod corpus;
 mod foreign;
+mod fsigner;
 mod ctx;
 mod hooks;
 mod interpose;
